@@ -361,6 +361,9 @@ func (r *runner) run() int {
 			for _, n := range rep.Notes {
 				fmt.Printf("    note: %s\n", n)
 			}
+			for _, f := range rep.Failures {
+				fmt.Printf("    failing clause [%s]: %s\n", f.Known, f.Clause)
+			}
 		}
 		for k, v := range st.AbandonReasons {
 			fmt.Printf("    unsupported: %s (x%d)\n", k, v)
@@ -428,6 +431,7 @@ func (r *runner) run() int {
 	validated, spurious, divergent := 0, 0, 0
 	violLines := []string{}
 	knownConfirmed := map[string]bool{}
+	var spuriousKnown []string
 	if !r.noReplay && len(pend) > 0 {
 		byPkg := map[string][]replayCase{}
 		for _, p := range pend {
@@ -487,12 +491,23 @@ func (r *runner) run() int {
 					os.WriteFile(path, b, 0o644)
 					fmt.Printf("    violated: %s  [%s]  at %s\n      inputs: %v\n      native: failed=%v panic=%q\n", p.clause, p.c.Harness, p.where, p.human, o.Failed, o.Panic)
 					violLines = append(violLines, fmt.Sprintf("VIOLATION property=%s replay=%s", r.prop, path))
+				} else if p.kind == "known" {
+					// a model in a listed finding's region that does not replay: tolerated if the same
+					// finding is confirmed by another counterexample of this run (decided below)
+					spuriousKnown = append(spuriousKnown, p.key)
+					fmt.Printf("    note: a counterexample in the region of %s for %q did not replay natively (inputs=%v)\n", p.key, p.clause, p.human)
 				} else {
 					spurious++
 					fmt.Printf("    SPURIOUS (%s): solver counterexample for %q in %s does not reproduce natively (failed=%v panic=%q assume=%q) inputs=%v at %s\n",
 						p.kind, p.clause, p.c.Harness, o.Failed, o.Panic, o.AssumeViolated, p.human, p.where)
 				}
 			}
+		}
+	}
+	for _, key := range spuriousKnown {
+		if !knownConfirmed[key] {
+			spurious++
+			fmt.Printf("    SPURIOUS (known): no counterexample in the region of %s replayed natively\n", key)
 		}
 	}
 	for key := range knownConfirmed {
